@@ -592,7 +592,7 @@ Definition ccopy_old_field (t : sty) (s d : cslot) : option cslot :=
    6 Exemplar (value-flavour element)  7 HistogramDataPoint  8 *HistogramDataPoint  9 NumberDataPoint
    10 *NumberDataPoint  11 Gauge  12 Sum  13 Histogram  14 Metric  15 *Metric  16 ScopeMetrics (Scope inlined)
    17 *ScopeMetrics  18 ResourceMetrics (Resource inlined)  19 *ResourceMetrics  20 Metrics
-   21 MetricSlice  22 HistogramDataPointSlice  23 ExemplarSlice  24 NumberDataPointSlice *)
+   21 MetricSlice  22 HistogramDataPointSlice  23 ExemplarSlice  24 NumberDataPointSlice  25.. see below *)
 Definition pmetric_schema : schema :=
   common_schema ++
   [ [TP; TI; TSl 1; TP; TP];
@@ -603,11 +603,23 @@ Definition pmetric_schema : schema :=
     [TSl 10];
     [TP; TP; TSl 10];
     [TP; TSl 8];
-    [TP; TP; TP; TSl 1; TOne [11; 12; 13]];
+    [TP; TP; TP; TSl 1; TOne [11; 12; 13; 27; 32]];
     [TPtr 14];
     [TP; TP; TSl 1; TP; TP; TSl 15];
     [TPtr 16];
     [TSl 1; TP; TP; TSl 17];
     [TPtr 18];
     [TSl 19];
-    [TSl 15]; [TSl 8]; [TSl 6]; [TSl 10] ].
+    [TSl 15]; [TSl 8]; [TSl 6]; [TSl 10];
+    (* 25 ExponentialHistogramDataPoint (Positive / Negative buckets inlined)  26 *25  27 ExponentialHistogram *)
+    [TSl 1; TP; TP; TP; TP; TP; TP; TPs; TP; TPs; TSl 6; TP; TI; TI; TI; TP];
+    [TPtr 25];
+    [TP; TSl 26];
+    (* 28 SummaryDataPoint_ValueAtQuantile  29 *28  30 SummaryDataPoint  31 *30  32 Summary *)
+    [TP; TP];
+    [TPtr 28];
+    [TSl 1; TP; TP; TP; TP; TSl 29; TP];
+    [TPtr 30];
+    [TSl 31];
+    (* 33 ExponentialHistogramDataPointSlice  34 SummaryDataPointSlice *)
+    [TSl 26]; [TSl 31] ].
